@@ -155,6 +155,8 @@ func (s *AccountDB) Prepare(thash, bhash common.Hash, ti int) {
 	s.bhash = bhash
 	s.txIndex = ti
 	s.accessList = newAccessList()
+	// transient storage (EIP-1153) lives for one transaction only
+	s.transientStorage = newTransientStorage()
 }
 
 // AddRefund adds gas to the refund counter
